@@ -456,7 +456,7 @@ Proof. intros. unfold flush_op. pdauto. Qed.
 Hint Resolve Pd_flush_op : pd.
 
 Lemma Pd_flushobj_op : forall (s : sess) (h : nat), Pd s -> Pdp (flushobj_op sch s h).
-Proof. intros. unfold flushobj_op. pdauto. Qed.
+Proof. intros. unfold flushobj_op, flushobj_go. pdauto. Qed.
 Hint Resolve Pd_flushobj_op : pd.
 
 Lemma Pd_keep_declined : forall s0 s1, Pd s1 -> Pd (keep_declined s0 s1).
